@@ -49,6 +49,22 @@ CHECKS = {
    note="'integrated volume fraction' is what the last solver step hands to apply_gbs; if the seam is never reached the check exits 2 (harness error), never 0",
    technique="deterministic simulation: seeded histories with an interposed seam and a recomputing oracle after every event",
  ),
+ "C04": dict(
+   engine="world",
+   category="exploration",
+   text="Twin-world simulation: the same seeded op list (partition, interleaving, faulted updates and retries) is executed in a world and in a twin seen from a frame rotated by a seeded proper rotation, or with a seeded subset of grains replaced by two-fold symmetry equivalents; every stored snapshot and returned F is compared under the mapping within twice the accumulated solver tolerance, a default-solver discrepancy being reported only if it persists with rtol 1e-10. The instantaneous-rate clause is checked (1e-9 relative) only on a seeded sample of the states these histories reach, by re-evaluating the real core.derivatives on the transformed state.",
+   design_ref="DESIGN.md 4.2",
+   note="integrated-texture clause claimed for sampled histories; rate clause only on reached states (not all of SO(3)); comparisons stop at exact ties at the sliding threshold; axis-aligned textures with exactly vanishing slip invariants (C03's measure-zero set) not generated",
+   technique="deterministic simulation: transformed twin world executing the same seeded schedule, history comparison",
+ ),
+ "C05": dict(
+   engine="world",
+   category="exploration",
+   text="Twin-world simulation in which the simulator's model clock runs kappa times faster with the forcing multiplied by kappa (kappa a power of two or log-uniform; rates within [1e-16, 1e3]); the same seeded op list (partition, interleaving, faulted updates and retries) is executed in both and every stored snapshot and returned F compared within twice the accumulated solver tolerance, a default-solver discrepancy being reported only if it persists with rtol 1e-10. Observed agreement (rounding level for the default solver) is reported as tolerance margin.",
+   design_ref="DESIGN.md 4.3",
+   note="the k and L dimensions are input sampling; what the simulator adds is the history/partition dimension and ownership of the clock; comparisons stop at exact ties at the sliding threshold",
+   technique="deterministic simulation: clock-rate-scaled twin world executing the same seeded schedule, history comparison",
+ ),
 }
 
 def build():
